@@ -357,6 +357,8 @@ def run_errors_from_headers_only(rep, facts):
     for np_, b in sorted(seen.items()):
         if np_.split("::{closure")[0] in dsites:
             continue
+        if any("protocol::RecordHeader" in b.locals[i_]["ty"]["s"] for i_ in range(1, min(b.argc, len(b.locals) - 1) + 1)):
+            continue        # a helper that is handed the decoded header (the dispatch `match` extracted into a function): its errors are what the header says
         n += 1
         bad = None
         for bi, blk in enumerate(b.blocks):
